@@ -21,8 +21,8 @@ PLAIN = {a: dict(NOOPT) for a in ATTRS}
 
 # the user's key / by functions (mirrors KeyFn / ByFn of DxCmp.tla; X is the field value)
 KEY = {"ord": "X.0 / 2", "partial_ord": "X.0 % 3", "eq": "X.0 / 3", "partial_eq": "X.0 % 2", "hash": "(X.0 + 1) / 2"}
-BYK = {"ord": "(5 - X.0) / 2", "partial_ord": "(X.0 + 1) % 3", "eq": "(5 - X.0) / 3", "partial_eq": "(X.0 + 1) % 2",
-       "hash": "(6 - X.0) / 2"}
+BYK = {"ord": "(9 - X.0) / 2", "partial_ord": "(X.0 + 1) % 3", "eq": "(9 - X.0) / 3", "partial_eq": "(X.0 + 1) % 2",
+       "hash": "(10 - X.0) / 2"}
 COH = "X.0 / 2"
 
 
@@ -251,8 +251,8 @@ def plain():
 
 def pv_shapes():
     """float-like (partially ordered, NaN) field types: used only where nothing but PartialEq / PartialOrd is derived"""
-    def s_pv(c): return mkP("struct", [{"shape": "tuple", "fields": [field(ty="pv", dom=2, nan=True), field(c, ty="pv", dom=3, nan=True), field(ty="pv", dom=1, nan=True)]}])
-    def e_pv(c): return mkP("enum", [{"shape": "named", "fields": [field(c, ty="pv", dom=3, nan=True), field(ty="pv", dom=2, nan=True)]}, {"shape": "tuple", "fields": [field(ty="pv", dom=1, nan=True)]}])
+    def s_pv(c): return mkP("struct", [{"shape": "tuple", "fields": [field(ty="pv", dom=1, nan=True), field(c, ty="pv", dom=2, nan=True), field(ty="pv", dom=1, nan=True)]}])
+    def e_pv(c): return mkP("enum", [{"shape": "named", "fields": [field(c, ty="pv", dom=2, nan=True), field(ty="pv", dom=1, nan=True)]}, {"shape": "tuple", "fields": [field(ty="pv", dom=1, nan=True)]}])
     return [("struct_pv", s_pv), ("enum_pv", e_pv)]
 
 
